@@ -84,7 +84,7 @@ func RunOps(cfg RunCfg, ops []Op) (*World, []string, *Mismatch) {
 				m.Step, m.Op = i, op.String()
 				return w, obs, m
 			}
-			if op.K == "reopen" && got == "ok" && op.H == 0 {
+			if op.K == "reopen" && got == "ok" && op.H == 0 && int64(w.File.Len()) == w.IO.DurableEnd {
 				if m := checkOpenReads(evs); m != nil {
 					m.Step, m.Op = i, op.String()
 					return w, obs, m
